@@ -1,7 +1,7 @@
 (* IterProofs.v — U32Digits (the half-digit state machine of src/biguint/iter.rs) refines a
    double-ended queue of the remaining base-2^32 digits, under any interleaving of
    next / next_back / nth / len / size_hint / last / count; U64Digits likewise. *)
-From BigNum Require Import Base BaseLemmas Iter SpecBytes BytesLemmas.
+From BigNum Require Import Base BaseLemmas SrcLit SrcLitLemmas Iter SpecBytes BytesLemmas.
 Open Scope Z_scope.
 
 (** ** list helpers *)
@@ -33,6 +33,50 @@ Proof.
   intros _. rewrite last_opt_snoc, last_last. reflexivity.
 Qed.
 
+
+(** ** the source-extracted parameters the proofs are about *)
+Definition bt (n1 a n2 : bool) : btest := {| bt_neg1 := n1; bt_and := a; bt_neg2 := n2 |}.
+Definition iter_std : iter_params := {|
+  itp_new_hi_cmp := Ceq; itp_new_default := false; itp_new_nil := true;
+  itp_next_flip := true; itp_next_test_neg := false; itp_next_end := bt false true false;
+  itp_next_reset := false;
+  itp_back_flip := true; itp_back_test_neg := false; itp_back_end := bt false true true;
+  itp_back_reset := true;
+  itp_len_mul := 2; itp_len_sub1 := true; itp_len_lhz_neg := false; itp_len_sub2 := true;
+  itp_len_nil_neg := true; itp_last_back := true |}.
+
+Definition iter_ok (p : iter_params) : bool :=
+  cmpop_eqb (itp_new_hi_cmp p) Ceq && Bool.eqb (itp_new_default p) false && Bool.eqb (itp_new_nil p) true
+  && Bool.eqb (itp_next_flip p) true && Bool.eqb (itp_next_test_neg p) false
+  && btest_eqb (itp_next_end p) (bt false true false) && Bool.eqb (itp_next_reset p) false
+  && Bool.eqb (itp_back_flip p) true && Bool.eqb (itp_back_test_neg p) false
+  && btest_eqb (itp_back_end p) (bt false true true) && Bool.eqb (itp_back_reset p) true
+  && (itp_len_mul p =? 2) && Bool.eqb (itp_len_sub1 p) true && Bool.eqb (itp_len_lhz_neg p) false
+  && Bool.eqb (itp_len_sub2 p) true && Bool.eqb (itp_len_nil_neg p) true && Bool.eqb (itp_last_back p) true.
+
+(** every field is pinned: the accepted parameter record is exactly [iter_std] *)
+Lemma iter_ok_inv p : iter_ok p = true -> p = iter_std.
+Proof.
+  destruct p. unfold iter_ok, iter_std. cbn.
+  rewrite !andb_true_iff. intros H.
+  repeat match goal with H : _ /\ _ |- _ => destruct H end.
+  repeat match goal with
+  | H : cmpop_eqb _ _ = true |- _ => apply cmpop_eqb_true in H
+  | H : btest_eqb _ _ = true |- _ => apply btest_eqb_true in H
+  | H : Bool.eqb _ _ = true |- _ => apply Bool.eqb_prop in H
+  | H : (_ =? _) = true |- _ => apply Z.eqb_eq in H
+  end.
+  subst. reflexivity.
+Qed.
+
+(** reduce the parameter projections of [iter_std] and the literal evaluators *)
+Ltac ip_red :=
+  cbn [iter_std bt itp_new_hi_cmp itp_new_default itp_new_nil itp_next_flip itp_next_test_neg itp_next_end
+       itp_next_reset itp_back_flip itp_back_test_neg itp_back_end itp_back_reset itp_len_mul
+       itp_len_sub1 itp_len_lhz_neg itp_len_sub2 itp_len_nil_neg itp_last_back
+       blit bt_eval bt_neg1 bt_and bt_neg2 addsub_lit cmp_eval it_is_empty andb negb] in *.
+Ltac ip_std p H := apply iter_ok_inv in H; subst p.
+
 (** ** abstraction *)
 Definition flat32 (d : list Z) : list Z := flat_map (fun x => [lo32 x; hi32 x]) d.
 Definition drop_first (b : bool) (l : list Z) : list Z := if b then tl l else l.
@@ -57,15 +101,16 @@ Proof. induction d as [|x d IH]; [reflexivity|]. rewrite flat32_cons. simpl leng
 Lemma flat32_nil_iff d : flat32 d = [] <-> d = [].
 Proof. destruct d; split; try discriminate; auto. Qed.
 
-Lemma inv_new d : inv (it_new d).
-Proof. unfold inv, it_new; cbn. intros ->. auto. Qed.
+Lemma inv_new p d : iter_ok p = true -> inv (it_new p d).
+Proof. intros Hok; ip_std p Hok. unfold inv, it_new; cbn. intros ->. auto. Qed.
 
 (** ** next *)
-Theorem it_next_spec s : inv s ->
-  let '(x, s') := it_next s in
+Theorem it_next_spec p s : iter_ok p = true -> inv s ->
+  let '(x, s') := it_next p s in
   x = hd_error (abs s) /\ abs s' = tl (abs s) /\ inv s'.
 Proof.
-  destruct s as [data nil lhz]; unfold inv, abs, it_next; cbn [it_data it_next_is_lo it_last_hi_is_zero].
+  intros Hok; ip_std p Hok.
+  destruct s as [data nil lhz]; unfold inv, abs, it_next; cbn [it_data it_next_is_lo it_last_hi_is_zero]; ip_red.
   intros Hinv. destruct data as [|first rest].
   - destruct (Hinv eq_refl) as [-> ->]. cbn. auto.
   - clear Hinv. rewrite flat32_cons. destruct nil; cbn [negb drop_first tl].
@@ -84,11 +129,12 @@ Proof.
 Qed.
 
 (** ** next_back *)
-Theorem it_next_back_spec s : inv s ->
-  let '(x, s') := it_next_back s in
+Theorem it_next_back_spec p s : iter_ok p = true -> inv s ->
+  let '(x, s') := it_next_back p s in
   x = last_opt (abs s) /\ abs s' = removelast (abs s) /\ inv s'.
 Proof.
-  destruct s as [data nil lhz]; unfold inv, abs, it_next_back; cbn [it_data it_next_is_lo it_last_hi_is_zero].
+  intros Hok; ip_std p Hok.
+  destruct s as [data nil lhz]; unfold inv, abs, it_next_back; cbn [it_data it_next_is_lo it_last_hi_is_zero]; ip_red.
   intros Hinv. destruct (snoc_cases data) as [->|(rest & lst & ->)].
   - destruct (Hinv eq_refl) as [-> ->]. cbn. auto.
   - clear Hinv. rewrite last_opt_snoc, removelast_snoc, flat32_snoc.
@@ -96,7 +142,7 @@ Proof.
     + (* the high half of the last digit is already gone: yield its low half *)
       destruct rest as [|a b] eqn:E.
       * destruct nil; cbn; auto.
-      * cbn [it_data it_next_is_lo it_last_hi_is_zero negb drop_last]. rewrite <- E.
+      * ip_red. cbn [it_data it_next_is_lo it_last_hi_is_zero negb drop_last]. rewrite <- E.
         assert (Hne : rest <> []) by (rewrite E; discriminate). clear E a b.
         destruct (snoc_cases rest) as [->|(rest' & r0 & ->)]; [congruence|].
         rewrite flat32_snoc.
@@ -122,9 +168,10 @@ Proof.
 Qed.
 
 (** ** len *)
-Theorem it_len_spec s : inv s -> it_len s = Ret (Z.of_nat (length (abs s))).
+Theorem it_len_spec p s : iter_ok p = true -> inv s -> it_len p s = Ret (Z.of_nat (length (abs s))).
 Proof.
-  destruct s as [data nil lhz]; unfold inv, abs, it_len; cbn [it_data it_next_is_lo it_last_hi_is_zero].
+  intros Hok; ip_std p Hok.
+  destruct s as [data nil lhz]; unfold inv, abs, it_len; cbn [it_data it_next_is_lo it_last_hi_is_zero]; ip_red.
   intros Hinv. destruct data as [|first rest].
   - destruct (Hinv eq_refl) as [-> ->]. reflexivity.
   - clear Hinv. rewrite flat32_cons.
@@ -142,85 +189,87 @@ Proof. destruct l; [destruct k; reflexivity|reflexivity]. Qed.
 Lemma hd_error_none {A} (l : list A) : hd_error l = None -> l = [].
 Proof. destruct l; [auto|discriminate]. Qed.
 
-Lemma it_advance_spec k : forall s, inv s ->
-  let '(okk, s') := it_advance k s in
+Lemma it_advance_spec p k : iter_ok p = true -> forall s, inv s ->
+  let '(okk, s') := it_advance p k s in
   inv s' /\ abs s' = skipn k (abs s) /\ (okk = false -> abs s' = []).
 Proof.
-  induction k as [|k IH]; intros s Hs.
+  intros Hok. induction k as [|k IH]; intros s Hs.
   - cbn. split; [exact Hs|split; [reflexivity|discriminate]].
-  - cbn [it_advance]. pose proof (it_next_spec s Hs) as Hn.
-    destruct (it_next s) as [x s1]. destruct Hn as (Hx & Ha & Hi).
+  - cbn [it_advance]. pose proof (it_next_spec p s Hok Hs) as Hn.
+    destruct (it_next p s) as [x s1]. destruct Hn as (Hx & Ha & Hi).
     destruct x as [x|].
-    + specialize (IH s1 Hi). destruct (it_advance k s1) as [okk s']. destruct IH as (I1 & I2 & I3).
+    + specialize (IH s1 Hi). destruct (it_advance p k s1) as [okk s']. destruct IH as (I1 & I2 & I3).
       split; [exact I1|split; [|exact I3]]. rewrite I2, Ha, skipn_S_tl. reflexivity.
     + symmetry in Hx. apply hd_error_none in Hx. rewrite Hx in *. cbn in Ha.
       split; [exact Hi|split; [|intros _; exact Ha]]. rewrite Ha, skipn_nil. reflexivity.
 Qed.
 
-Theorem it_nth_spec k s : inv s ->
-  let '(x, s') := it_nth k s in
+Theorem it_nth_spec p k s : iter_ok p = true -> inv s ->
+  let '(x, s') := it_nth p k s in
   x = hd_error (skipn k (abs s)) /\ abs s' = tl (skipn k (abs s)) /\ inv s'.
 Proof.
-  intros Hs. unfold it_nth. pose proof (it_advance_spec k s Hs) as Ha.
-  destruct (it_advance k s) as [okk s1]. destruct Ha as (I1 & I2 & I3).
+  intros Hok Hs. unfold it_nth. pose proof (it_advance_spec p k Hok s Hs) as Ha.
+  destruct (it_advance p k s) as [okk s1]. destruct Ha as (I1 & I2 & I3).
   destruct okk.
-  - pose proof (it_next_spec s1 I1) as Hn. destruct (it_next s1) as [x s']. rewrite I2 in Hn. exact Hn.
+  - pose proof (it_next_spec p s1 Hok I1) as Hn. destruct (it_next p s1) as [x s']. rewrite I2 in Hn. exact Hn.
   - specialize (I3 eq_refl). rewrite <- I2, I3. cbn. split; [reflexivity|split; [reflexivity|exact I1]].
 Qed.
 
-Theorem it_last_spec s : inv s -> it_last s = last_opt (abs s).
+Theorem it_last_spec p s : iter_ok p = true -> inv s -> it_last p s = last_opt (abs s).
 Proof.
-  intros Hs. unfold it_last. pose proof (it_next_back_spec s Hs) as Hn.
-  destruct (it_next_back s) as [x s']. apply Hn.
+  intros Hok Hs. unfold it_last.
+  replace (itp_last_back p) with true by (apply iter_ok_inv in Hok; subst p; reflexivity).
+  pose proof (it_next_back_spec p s Hok Hs) as Hn.
+  destruct (it_next_back p s) as [x s']. apply Hn.
 Qed.
-Theorem it_count_spec s : inv s -> it_count s = Ret (Z.of_nat (length (abs s))).
+Theorem it_count_spec p s : iter_ok p = true -> inv s -> it_count p s = Ret (Z.of_nat (length (abs s))).
 Proof. apply it_len_spec. Qed.
-Theorem it_size_hint_spec s : inv s ->
-  it_size_hint s = Ret (Z.of_nat (length (abs s)), Some (Z.of_nat (length (abs s)))).
-Proof. intros Hs. unfold it_size_hint. rewrite it_len_spec by auto. reflexivity. Qed.
+Theorem it_size_hint_spec p s : iter_ok p = true -> inv s ->
+  it_size_hint p s = Ret (Z.of_nat (length (abs s)), Some (Z.of_nat (length (abs s)))).
+Proof. intros Hok Hs. unfold it_size_hint. rewrite it_len_spec by auto. reflexivity. Qed.
 
 (** ** any interleaving: induction over the call list *)
-Theorem it_run_refines cs : forall s, inv s -> it_run cs s = dq_run cs (abs s).
+Theorem it_run_refines p cs : iter_ok p = true -> forall s, inv s -> it_run p cs s = dq_run cs (abs s).
 Proof.
-  induction cs as [|c cs IH]; intros s Hs; [reflexivity|].
+  intros Hok. induction cs as [|c cs IH]; intros s Hs; [reflexivity|].
   destruct c; cbn [it_run dq_run].
-  - pose proof (it_next_spec s Hs) as Hn. destruct (it_next s) as [x s']. destruct Hn as (-> & Ha & Hi).
+  - pose proof (it_next_spec p s Hok Hs) as Hn. destruct (it_next p s) as [x s']. destruct Hn as (-> & Ha & Hi).
     rewrite IH, Ha by auto. reflexivity.
-  - pose proof (it_next_back_spec s Hs) as Hn. destruct (it_next_back s) as [x s']. destruct Hn as (-> & Ha & Hi).
+  - pose proof (it_next_back_spec p s Hok Hs) as Hn. destruct (it_next_back p s) as [x s']. destruct Hn as (-> & Ha & Hi).
     rewrite IH, Ha by auto. reflexivity.
   - rewrite it_len_spec, IH by auto. reflexivity.
   - rewrite it_size_hint_spec, IH by auto. reflexivity.
-  - pose proof (it_nth_spec k s Hs) as Hn. destruct (it_nth k s) as [x s']. destruct Hn as (-> & Ha & Hi).
+  - pose proof (it_nth_spec p k s Hok Hs) as Hn. destruct (it_nth p k s) as [x s']. destruct Hn as (-> & Ha & Hi).
     rewrite IH, Ha by auto. reflexivity.
   - rewrite it_last_spec by auto. reflexivity.
   - rewrite it_count_spec by auto. reflexivity.
 Qed.
 
 (** the invariant holds in every state reachable by a call list *)
-Inductive step : u32it -> u32it -> Prop :=
-| step_next s : step s (snd (it_next s))
-| step_back s : step s (snd (it_next_back s))
-| step_nth k s : step s (snd (it_nth k s)).
-Inductive reachable (d : list Z) : u32it -> Prop :=
-| reach_new : reachable d (it_new d)
-| reach_step s s' : reachable d s -> step s s' -> reachable d s'.
-Theorem reachable_inv d s : reachable d s -> inv s.
+Inductive step (p : iter_params) : u32it -> u32it -> Prop :=
+| step_next s : step p s (snd (it_next p s))
+| step_back s : step p s (snd (it_next_back p s))
+| step_nth k s : step p s (snd (it_nth p k s)).
+Inductive reachable (p : iter_params) (d : list Z) : u32it -> Prop :=
+| reach_new : reachable p d (it_new p d)
+| reach_step s s' : reachable p d s -> step p s s' -> reachable p d s'.
+Theorem reachable_inv p d s : iter_ok p = true -> reachable p d s -> inv s.
 Proof.
-  induction 1 as [|s s' _ IH Hst]; [apply inv_new|].
+  intros Hok. induction 1 as [|s s' _ IH Hst]; [apply inv_new; auto|].
   destruct Hst.
-  - pose proof (it_next_spec s IH) as H. destruct (it_next s); apply H.
-  - pose proof (it_next_back_spec s IH) as H. destruct (it_next_back s); apply H.
-  - pose proof (it_nth_spec k s IH) as H. destruct (it_nth k s); apply H.
+  - pose proof (it_next_spec p s Hok IH) as H. destruct (it_next p s); apply H.
+  - pose proof (it_next_back_spec p s Hok IH) as H. destruct (it_next_back p s); apply H.
+  - pose proof (it_nth_spec p k s Hok IH) as H. destruct (it_nth p k s); apply H.
 Qed.
 
 (** fused: once the remaining digits are exhausted every call keeps answering None / 0 *)
-Theorem it_fused s : inv s -> abs s = [] ->
-  fst (it_next s) = None /\ fst (it_next_back s) = None /\ it_len s = Ret 0 /\
-  abs (snd (it_next s)) = [] /\ abs (snd (it_next_back s)) = [].
+Theorem it_fused p s : iter_ok p = true -> inv s -> abs s = [] ->
+  fst (it_next p s) = None /\ fst (it_next_back p s) = None /\ it_len p s = Ret 0 /\
+  abs (snd (it_next p s)) = [] /\ abs (snd (it_next_back p s)) = [].
 Proof.
-  intros Hs Ha.
-  pose proof (it_next_spec s Hs) as H1. pose proof (it_next_back_spec s Hs) as H2.
-  destruct (it_next s) as [x s1], (it_next_back s) as [y s2].
+  intros Hok Hs Ha.
+  pose proof (it_next_spec p s Hok Hs) as H1. pose proof (it_next_back_spec p s Hok Hs) as H2.
+  destruct (it_next p s) as [x s1], (it_next_back p s) as [y s2].
   rewrite Ha in *. cbn in *. rewrite it_len_spec, Ha by auto.
   repeat split; try apply H1; try apply H2.
 Qed.
@@ -248,12 +297,12 @@ Proof.
   apply inb_cons; split; [apply lo32_range|]. apply inb_cons; split; [apply hi32_range|auto].
 Qed.
 
-Theorem abs_new d : canon d -> abs (it_new d) = le_digits W32 (val d).
+Theorem abs_new p d : iter_ok p = true -> canon d -> abs (it_new p d) = le_digits W32 (val d).
 Proof.
-  intros [Hwf Hs]. destruct (snoc_cases d) as [->|(r & t & ->)]; [reflexivity|].
+  intros Hok; ip_std p Hok. intros [Hwf Hs]. destruct (snoc_cases d) as [->|(r & t & ->)]; [reflexivity|].
   pose proof (strip_fix_snoc _ _ Hs) as Ht.
   apply wf_app in Hwf as Hw2. destruct Hw2 as [Hr Hts]. apply wf_cons in Hts as [Htd _].
-  unfold abs, it_new. cbn [it_data it_next_is_lo it_last_hi_is_zero negb drop_first].
+  unfold abs, it_new. ip_red. cbn [it_data it_next_is_lo it_last_hi_is_zero negb drop_first].
   rewrite last_opt_snoc.
   rewrite <- (flat32_value (r ++ [t])) by auto.
   rewrite flat32_snoc. change [lo32 t; hi32 t] with ([lo32 t] ++ [hi32 t]). rewrite app_assoc.
@@ -269,9 +318,9 @@ Proof.
 Qed.
 
 (** C09: iter_u32_digits under any call script = the deque of base-2^32 digits *)
-Theorem iter32_spec d cs : canon d -> it_run cs (it_new d) = spec_iter32 (val d) cs.
+Theorem iter32_spec p d cs : iter_ok p = true -> canon d -> it_run p cs (it_new p d) = spec_iter32 (val d) cs.
 Proof.
-  intros Hd. rewrite it_run_refines by apply inv_new. unfold spec_iter32. rewrite abs_new by auto.
+  intros Hok Hd. rewrite it_run_refines by auto using inv_new. unfold spec_iter32. rewrite abs_new by auto.
   reflexivity.
 Qed.
 
@@ -282,22 +331,24 @@ Proof.
   destruct (it_last_hi_is_zero s), (it_next_is_lo s); cbn [negb drop_first drop_last];
     rewrite ?length_removelast; destruct (flat32 (it_data s)); simpl; lia.
 Qed.
-Lemma it_collect_fuel_spec f : forall s, inv s -> (length (abs s) < f)%nat ->
-  it_collect_fuel f s = Ret (abs s).
+Lemma it_collect_fuel_spec p f : iter_ok p = true -> forall s, inv s -> (length (abs s) < f)%nat ->
+  it_collect_fuel p f s = Ret (abs s).
 Proof.
-  induction f as [|f IH]; intros s Hs Hl; [lia|].
-  cbn [it_collect_fuel]. pose proof (it_next_spec s Hs) as Hn.
-  destruct (it_next s) as [x s']. destruct Hn as (Hx & Ha & Hi).
+  intros Hok. induction f as [|f IH]; intros s Hs Hl; [lia|].
+  cbn [it_collect_fuel]. pose proof (it_next_spec p s Hok Hs) as Hn.
+  destruct (it_next p s) as [x s']. destruct Hn as (Hx & Ha & Hi).
   destruct (abs s) as [|y q] eqn:E; cbn in Hx; subst x.
   - reflexivity.
   - cbn in Ha. rewrite IH; auto; rewrite Ha; [reflexivity|]. simpl in Hl. lia.
 Qed.
-Theorem it_collect_spec d : canon d -> it_collect (it_new d) = Ret (le_digits W32 (val d)).
+Theorem it_collect_spec p d : iter_ok p = true -> canon d ->
+  it_collect p (it_new p d) = Ret (le_digits W32 (val d)).
 Proof.
-  intros Hd. unfold it_collect. rewrite it_collect_fuel_spec.
+  intros Hok Hd. unfold it_collect. rewrite it_collect_fuel_spec.
   - rewrite abs_new; auto.
-  - apply inv_new.
-  - pose proof (abs_length_le (it_new d)). lia.
+  - exact Hok.
+  - apply inv_new; auto.
+  - pose proof (abs_length_le (it_new p d)). lia.
 Qed.
 
 (** ** U64Digits *)
